@@ -835,6 +835,9 @@ func (c *vT) checkC19() {
 		}
 	}
 	vAssert(int32(lines) == s.NodeCnt, "C19.line-per-node")
+	// every line names the node it renders as "#<id>": each id 0..NodeCnt-1 exactly once
+	seen := make([]bool, int(s.NodeCnt))
+	okIDs := true
 	// leaf lines: "...=<value>" at the end of a line
 	var got []int
 	i := 0
@@ -844,6 +847,24 @@ func (c *vT) checkC19() {
 			j++
 		}
 		line := out[i:j]
+		h := 0
+		for h < len(line) && line[h] != '#' {
+			h++
+		}
+		if h < len(line) {
+			id, nd := 0, 0
+			for d := h + 1; d < len(line) && line[d] >= '0' && line[d] <= '9'; d++ {
+				id = id*10 + int(line[d]-'0')
+				nd++
+			}
+			if nd == 0 || id >= len(seen) || seen[id] {
+				okIDs = false
+			} else {
+				seen[id] = true
+			}
+		} else {
+			okIDs = false
+		}
 		k := len(line) - 1
 		for k >= 0 && line[k] != '=' {
 			k--
@@ -881,6 +902,9 @@ func (c *vT) checkC19() {
 			okL = got[j] == want[j]
 		}
 		vAssert(okL, "C19.leaf-order")
+	}
+	if int32(lines) == s.NodeCnt && lines > 0 {
+		vAssert(okIDs, "C19.each-node-once")
 	}
 	vObserve("lines", lines)
 }
